@@ -7,6 +7,13 @@ returned reply may stem from).  Where the statement leaves a choice the set has 
 Letters: T timeout, Z silence until the next transmission, C connection error on read, E empty read, W connection error on
 write, B busyRepeatRequest, P responsePending, M reply of another service, X undecodable reply of this service,
 N final negative reply, F final positive reply.
+
+Time: a letter T is ONE silent poll of the client, however long the client makes that poll; the silence limit counted in polls
+(`silence_polls`) is only meaningful for a client whose polls last POLL seconds.  The statement fixes the limit in SECONDS
+(max(timeout, 20 s)), for every timeout - also one below the poll interval.  Silence measured in seconds is scripted as a reply
+that arrives `d` seconds after the previous event (`delays`); `in_time_after_pending` / `in_time_first` say whether such a reply
+is "received in time".  A reply received in time is the same event as the undelayed reply: `outcomes` ignores in-time delays and
+refuses others.
 """
 
 from __future__ import annotations
@@ -22,8 +29,40 @@ def silence_polls(timeout: float) -> tuple[int, int]:
     return lo, lo + 1
 
 
-def outcomes(script: list[str], max_retry: int, timeout: float) -> set[tuple[Any, ...]]:
-    """-> set of (tx, kind, detail, reconnects); kind in return|missing|mismatch|malformed|error"""
+def silence_seconds(timeout: float) -> float:
+    """the silence limit after a responsePending, in seconds, for a request with this effective timeout"""
+    return max(timeout, 20.0)
+
+
+def in_time_after_pending(delay: float, timeout: float) -> bool:
+    """a reply that follows a responsePending after `delay` seconds of silence is received in time (one poll interval of slack:
+    the client may notice the limit at a poll boundary)"""
+    return delay <= silence_seconds(timeout) - POLL
+
+
+def in_time_first(delay: float, timeout: float) -> bool:
+    """a reply that follows the transmission after `delay` seconds is received in time"""
+    return delay < timeout
+
+
+REPLIES = "BPMXNF"
+
+
+def outcomes(script: list[str], max_retry: int, timeout: float, delays: dict[int, float] | None = None) -> set[tuple[Any, ...]]:
+    """-> set of (tx, kind, detail, reconnects); kind in return|missing|mismatch|malformed|error
+    `delays`: event index -> seconds of silence before that reply arrives; only in-time delays of the first reply of the script
+    or of a reply that directly follows a pending (always read inside the pending chain) are modelled: they change nothing"""
+    for idx, d in (delays or {}).items():
+        if not (0 <= idx < len(script)) or script[idx] not in REPLIES:
+            raise ValueError(f"delay on event {idx}, which is not a reply")
+        if idx > 0 and script[idx - 1] == "P":
+            if not in_time_after_pending(d, timeout):
+                raise ValueError(f"reply {idx} after a pending is delayed beyond the silence limit: not modelled")
+        elif idx == 0:
+            if not in_time_first(d, timeout):
+                raise ValueError("first reply delayed beyond the timeout: not modelled")
+        else:
+            raise ValueError(f"delay on event {idx}: its reader (first read or pending poll) depends on the client")
     res: set[tuple[Any, ...]] = set()
     n = len(script)
     lo, hi = silence_polls(timeout)
